@@ -1,6 +1,650 @@
+/-
+  C05 — stroke output is a well-formed mesh with self-consistent per-vertex data.
+
+  Component theorems about `Model/Tess/StrokeParts.lean` — the same `def`s the correspondence
+  check runs at `Float32` against lyon's crate-private code through hook H3
+  (`lyon_tessellation::verif_stroke`).  Discrete statements (ids, counts, the 3-slot window) hold
+  for every scalar type, floats included; numeric statements are over an arbitrary linearly
+  ordered field `K` with `sqrt`, `sin`, `cos` as parameters whose laws are explicit hypotheses.
+
+  What is NOT a theorem here (explored by the oracle on the real code, see conf/C05.json): the
+  join/cap geometry as a whole — finiteness of every vertex, the reach bound, validity of ids
+  across a whole stroke, advancement and sources.  `kept_points_apart` covers the step functions'
+  merge rule on points that are not flattening steps; `close()` moves the last kept point onto
+  the first one afterwards (a fix-up outside the model).
+-/
 import LyonVerif.Model.Tess.StrokeParts
 import LyonVerif.Lemmas.Field
+import Mathlib.Tactic.SplitIfs
+import Mathlib.Tactic.IntervalCases
+import Mathlib.Algebra.Order.Ring.Abs
+import Mathlib.Tactic.NormNum
+import Mathlib.Tactic.Positivity
+import Mathlib.Analysis.SpecialFunctions.Sqrt
+import Mathlib.Analysis.SpecialFunctions.Trigonometric.Basic
+
+set_option linter.unusedSectionVars false
+set_option linter.unusedVariables false
+
+geom_all Lyon.Stroke.VData
 
 namespace Lyon.C05
-theorem placeholder : True := trivial
+open Lyon Scalar Lyon.Stroke
+
+/-! ## §1 Vertex data -/
+
+section Field
+variable {K : Type} [Field K] [LinearOrder K] [IsStrictOrderedRing K]
+
+/-- `position = position_on_path + normal · (line_width / 2)` for everything a vertex constructor
+can read: `read` is the record of accessor results the driver prints and the tie compares. -/
+theorem position_def (d : VData K) :
+    d.read.position = d.read.positionOnPath + d.read.normal.smul (d.read.lineWidth * (1 / 2)) := by
+  geom_ring
+
+/-- `line_width` is twice the half width the tessellator works with -/
+theorem line_width_def (d : VData K) : d.read.lineWidth = 2 * d.halfWidth := by
+  geom_ring
+
+/-- interpolated attributes of an edge vertex: affine in `t`, the end values at `t = 0, 1` -/
+theorem lerp_attributes_ends (a b : List K) (h : a.length = b.length) :
+    lerpAttributes a b 0 = a ∧ lerpAttributes a b 1 = b := by
+  induction a generalizing b with
+  | nil => cases b <;> simp_all [lerpAttributes]
+  | cons x xs ih =>
+    cases b with
+    | nil => simp at h
+    | cons y ys =>
+      have := ih ys (by simpa using h)
+      simp only [lerpAttributes, List.zipWith_cons_cons] at this ⊢
+      refine ⟨?_, ?_⟩
+      · rw [this.1]; congr 1; simp only [geom]; push_cast; ring
+      · rw [this.2]; congr 1; simp only [geom]; push_cast; ring
+
+/-- the second read of the attributes (served from the cache) equals the first -/
+theorem interpolated_twice_same (store : Nat → List K) (s : Src K) :
+    (interpolatedTwice store s).1 = (interpolatedTwice store s).2 := rfl
+
+end Field
+
+/-! ## §2 Triangles have three distinct ids -/
+
+def Tri.Distinct (t : Tri) : Prop := t.1 ≠ t.2.1 ∧ t.2.1 ≠ t.2.2 ∧ t.1 ≠ t.2.2
+/-- all three ids are below `n` (ids handed out so far) -/
+def Tri.Below (t : Tri) (n : Nat) : Prop := t.1 < n ∧ t.2.1 < n ∧ t.2.2 < n
+
+instance (t : Tri) : Decidable (Tri.Distinct t) := by unfold Tri.Distinct; infer_instance
+
+/-- every triangle `add_edge_triangles` emits has three pairwise distinct ids, whatever the ids
+and fold flags of the two joins are (the issue_894 guards suffice) -/
+theorem edge_triangles_distinct (p0 p1 : JoinIds) :
+    ∀ t ∈ addEdgeTriangles p0 p1, Tri.Distinct t := by
+  intro t ht
+  unfold addEdgeTriangles edgeTri1 edgeTri2 at ht
+  split_ifs at ht <;> simp at ht
+  all_goals (rcases ht with rfl | rfl <;> simp only [Tri.Distinct] <;> refine ⟨?_, ?_, ?_⟩ <;> tauto)
+
+/-- at most two triangles per edge -/
+theorem edge_triangles_count (p0 p1 : JoinIds) : (addEdgeTriangles p0 p1).length ≤ 2 := by
+  unfold addEdgeTriangles edgeTri1 edgeTri2
+  split_ifs <;> simp
+
+/-- the guards are not vacuous: with the four ids distinct both triangles are emitted -/
+example : addEdgeTriangles ⟨0, 1, 2, 3, false, false⟩ ⟨4, 5, 6, 7, false, false⟩ = [(3, 1, 4), (3, 4, 6)] := by
+  decide
+/-- issue_894 shape (shared ids through folds): the degenerate triangles are dropped -/
+example : addEdgeTriangles ⟨0, 1, 2, 3, true, false⟩ ⟨0, 5, 6, 7, false, false⟩ = [] := by decide
+
+section Joins
+variable {α : Type} [Scalar α]
+
+/-- ids handed out by `add_join_base_vertices` (negative side first): a side with a single
+vertex gets one id for `prev` and `next`, a side without gets two consecutive ones; all are
+fresh (`≥ o.nextId`) and the two sides never share an id. -/
+theorem join_base_vertices_ids (j : Join α) (d : VData α) (o : Out α) :
+    let r := addJoinBaseVertices j d o
+    let i := r.1.ids
+    o.nextId ≤ i.negPrev ∧ i.negPrev ≤ i.negNext ∧ i.negNext < i.posPrev ∧ i.posPrev ≤ i.posNext
+      ∧ i.posNext < r.2.nextId
+      ∧ (i.negPrev = i.negNext ↔ j.neg.single.isSome) ∧ (i.posPrev = i.posNext ↔ j.pos.single.isSome)
+      ∧ r.1.pos.single = j.pos.single ∧ r.1.neg.single = j.neg.single
+      ∧ r.1.foldPos = j.foldPos ∧ r.1.foldNeg = j.foldNeg := by
+  rcases j with ⟨p, hw, rd, ⟨pp, pn, ps, pi, pj⟩, ⟨np, nn, ns, ni, nj⟩, fp, fn⟩
+  cases ps <;> cases ns <;>
+    simp [addJoinBaseVertices, baseVerticesSide, Join.ids, Out.addVertex]
+
+/-- `join_triangles_distinct`: after `add_join_base_vertices`, every interior triangle of
+`tessellate_join` has three distinct ids, all of them handed out already; and a side that gets a
+round join has distinct anchor vertices (so `arc_fan` applies to it). -/
+theorem join_triangles_distinct (j : Join α) (d : VData α) (o : Out α) :
+    let r := addJoinBaseVertices j d o
+    (∀ t ∈ joinInterior r.1.ids (needsJoinPos r.1) (needsJoinNeg r.1),
+        Tri.Distinct t ∧ Tri.Below t r.2.nextId)
+    ∧ (needsJoinPos r.1 = true → r.1.pos.prevVertex ≠ r.1.pos.nextVertex)
+    ∧ (needsJoinNeg r.1 = true → r.1.neg.prevVertex ≠ r.1.neg.nextVertex) := by
+  rcases j with ⟨p, hw, rd, ⟨pp, pn, ps, pi, pj⟩, ⟨np, nn, ns, ni, nj⟩, fp, fn⟩
+  cases ps <;> cases ns <;> cases fp <;> cases fn <;>
+    simp [addJoinBaseVertices, baseVerticesSide, Join.ids, Out.addVertex, joinInterior, needsJoinPos,
+      needsJoinNeg, Tri.Distinct, Tri.Below] <;> omega
+
+/-- the same with ids that merely have the structure `add_join_base_vertices` produces -/
+theorem join_interior_distinct (i : JoinIds) (needPos needNeg : Bool)
+    (hp : needPos = true → i.posPrev ≠ i.posNext) (hn : needNeg = true → i.negPrev ≠ i.negNext)
+    (hx : i.posPrev ≠ i.negPrev ∧ i.posPrev ≠ i.negNext ∧ i.posNext ≠ i.negPrev ∧ i.posNext ≠ i.negNext) :
+    ∀ t ∈ joinInterior i needPos needNeg, Tri.Distinct t := by
+  intro t ht
+  unfold joinInterior at ht
+  obtain ⟨h1, h2, h3, h4⟩ := hx
+  cases needPos <;> cases needNeg <;> simp at ht hp hn
+  · obtain ⟨_, rfl⟩ := ht
+    exact ⟨fun h => h1 h.symm, h2, hn⟩
+  · obtain ⟨_, rfl⟩ := ht
+    exact ⟨fun h => h1 h.symm, hp, fun h => h3 h.symm⟩
+  · obtain ⟨_, rfl | rfl⟩ := ht
+    · exact ⟨hp, h4, h2⟩
+    · exact ⟨h2, fun h => hn h.symm, h1⟩
+
+end Joins
+
+/-! ## §3 `tessellate_arc`: a fan of 2^d − 1 fresh vertices and proper triangles -/
+
+section Arc
+variable {K : Type} [Field K] [LinearOrder K] [IsStrictOrderedRing K] [Transc K]
+
+/-- `r` extends `o` by exactly `k` vertices with unit normals and `k` proper triangles over
+ids handed out so far -/
+structure Ext (o r : Out K) (k : Nat) : Prop where
+  next : r.nextId = o.nextId + k
+  verts : ∃ vs, r.verts = o.verts ++ vs ∧ vs.length = k ∧ ∀ v ∈ vs, v.normal.sqLen = 1
+  tris : ∃ ts, r.tris = o.tris ++ ts ∧ ts.length = k ∧ ∀ t ∈ ts, Tri.Distinct t ∧ Tri.Below t r.nextId
+
+theorem Ext.refl (o : Out K) : Ext o o 0 :=
+  ⟨rfl, ⟨[], by simp⟩, ⟨[], by simp⟩⟩
+
+theorem Tri.Below.mono {t : Tri} {n m : Nat} (h : Tri.Below t n) (hnm : n ≤ m) : Tri.Below t m :=
+  ⟨lt_of_lt_of_le h.1 hnm, lt_of_lt_of_le h.2.1 hnm, lt_of_lt_of_le h.2.2 hnm⟩
+
+theorem Ext.trans {o r s : Out K} {k m : Nat} (h1 : Ext o r k) (h2 : Ext r s m) : Ext o s (k + m) := by
+  obtain ⟨n1, ⟨vs1, hv1, hl1, hu1⟩, ⟨ts1, ht1, hm1, hd1⟩⟩ := h1
+  obtain ⟨n2, ⟨vs2, hv2, hl2, hu2⟩, ⟨ts2, ht2, hm2, hd2⟩⟩ := h2
+  refine ⟨by omega, ⟨vs1 ++ vs2, by simp [hv2, hv1], by simp [hl1, hl2], ?_⟩,
+    ⟨ts1 ++ ts2, by simp [ht2, ht1], by simp [hm1, hm2], ?_⟩⟩
+  · intro v hv
+    rcases List.mem_append.mp hv with h | h
+    · exact hu1 v h
+    · exact hu2 v h
+  · intro t ht
+    rcases List.mem_append.mp ht with h | h
+    · exact ⟨(hd1 t h).1, (hd1 t h).2.mono (by omega)⟩
+    · exact hd2 t h
+
+/-- one `add_stroke_vertex` + `add_triangle(va, v, vb)` step -/
+theorem Ext.step (o : Out K) (d : VData K) (va vb : Nat) (hn : d.normal.sqLen = 1)
+    (hab : va ≠ vb) (ha : va < o.nextId) (hb : vb < o.nextId) :
+    Ext o ((o.addVertex d).addTri (va, o.nextId, vb)) 1 := by
+  refine ⟨rfl, ⟨[d], rfl, rfl, by simpa using hn⟩, ⟨[(va, o.nextId, vb)], rfl, rfl, ?_⟩⟩
+  intro t ht
+  simp only [List.mem_singleton] at ht
+  subst ht
+  simp only [Tri.Distinct, Tri.Below, Out.addTri, Out.addVertex]
+  omega
+
+/-- `arc_fan`: `tessellate_arc` with depth `n` between two distinct existing vertices emits exactly
+`2^n − 1` fresh vertices (consecutive ids from `o.nextId`), all with unit normals, and `2^n − 1`
+triangles, each with three pairwise distinct ids that have been handed out.  `cos² + sin² = 1` is
+the only law of the trigonometric functions used. -/
+theorem arc_fan (htrig : ∀ x : K, Transc.cos x * Transc.cos x + Transc.sin x * Transc.sin x = 1)
+    (n : Nat) : ∀ (a0 a1 : K) (va vb : Nat) (d : VData K) (o : Out K),
+      va ≠ vb → va < o.nextId → vb < o.nextId →
+      Ext o (tessellateArc a0 a1 va vb n d o) (2 ^ n - 1) := by
+  induction n with
+  | zero => intro a0 a1 va vb d o _ _ _; simpa [tessellateArc] using Ext.refl o
+  | succ n ih =>
+    intro a0 a1 va vb d o hab ha hb
+    simp only [tessellateArc]
+    set mid := (a0 + a1) * half with hmid
+    set d1 : VData K := { d with normal := ⟨Transc.cos mid, Transc.sin mid⟩ } with hd1
+    have hn : d1.normal.sqLen = 1 := by simp only [hd1, P.sqLen]; exact htrig mid
+    have e1 := Ext.step o d1 va vb hn hab ha hb
+    set o1 := (o.addVertex d1).addTri (va, o.nextId, vb) with ho1
+    have h1 : o1.nextId = o.nextId + 1 := rfl
+    have e2 := ih a0 mid va o.nextId d1 o1 (by omega) (by omega) (by omega)
+    set o2 := tessellateArc a0 mid va o.nextId n d1 o1 with ho2
+    have h2 : o2.nextId = o1.nextId + (2 ^ n - 1) := e2.next
+    have e3 := ih mid a1 o.nextId vb d1 o2 (by omega) (by omega) (by omega)
+    have hp : 2 ^ (n + 1) = 2 * 2 ^ n := by ring
+    have hpos : 1 ≤ 2 ^ n := Nat.one_le_two_pow
+    have hk : 1 + (2 ^ n - 1) + (2 ^ n - 1) = 2 ^ (n + 1) - 1 := by omega
+    rw [← hk]
+    exact (e1.trans e2).trans e3
+
+end Arc
+
+/-! ## §4 `PointBuffer` is "the last three points" -/
+
+section Buffer
+variable {β : Type}
+
+/-- the specification: the list of points since the last `clear`; `replace_last` overwrites the
+newest one and is an error on an empty list -/
+def specApply (l : List β) : BufOp β → Option (List β)
+  | .push p => some (l ++ [p])
+  | .replaceLast p => if l = [] then none else some (l.dropLast ++ [p])
+  | .clear => some []
+
+def specRun (l : List β) : List (BufOp β) → Option (List β)
+  | [] => some l
+  | op :: ops => match specApply l op with
+    | none => none
+    | some l' => specRun l' ops
+
+/-- the (at most) three newest points, oldest first -/
+def window (l : List β) : List β := l.drop (l.length - 3)
+
+/-- representation invariant: which slot holds which of the newest points -/
+inductive Rep : PointBuffer β → List β → Prop
+  | c0 (s0 s1 s2 : β) : Rep ⟨s0, s1, s2, 0, 0⟩ []
+  | c1 (s0 s1 s2 : β) : Rep ⟨s0, s1, s2, 0, 1⟩ [s0]
+  | c2 (s0 s1 s2 : β) : Rep ⟨s0, s1, s2, 0, 2⟩ [s0, s1]
+  | r0 (s0 s1 s2 : β) (pre : List β) : Rep ⟨s0, s1, s2, 0, 3⟩ (pre ++ [s0, s1, s2])
+  | r1 (s0 s1 s2 : β) (pre : List β) : Rep ⟨s0, s1, s2, 1, 3⟩ (pre ++ [s1, s2, s0])
+  | r2 (s0 s1 s2 : β) (pre : List β) : Rep ⟨s0, s1, s2, 2, 3⟩ (pre ++ [s2, s0, s1])
+
+theorem Rep.push {b : PointBuffer β} {l : List β} (h : Rep b l) (p : β) :
+    ∃ b', b.push p = some b' ∧ Rep b' (l ++ [p]) := by
+  cases h with
+  | c0 s0 s1 s2 => exact ⟨_, rfl, Rep.c1 p s1 s2⟩
+  | c1 s0 s1 s2 => exact ⟨_, rfl, Rep.c2 s0 p s2⟩
+  | c2 s0 s1 s2 => exact ⟨_, rfl, by simpa [PointBuffer.bumpCount, PointBuffer.bumpStart] using Rep.r0 s0 s1 p []⟩
+  | r0 s0 s1 s2 pre => exact ⟨_, rfl, by simpa [PointBuffer.bumpCount, PointBuffer.bumpStart] using Rep.r1 p s1 s2 (pre ++ [s0])⟩
+  | r1 s0 s1 s2 pre => exact ⟨_, rfl, by simpa [PointBuffer.bumpCount, PointBuffer.bumpStart] using Rep.r2 s0 p s2 (pre ++ [s1])⟩
+  | r2 s0 s1 s2 pre => exact ⟨_, rfl, by simpa [PointBuffer.bumpCount, PointBuffer.bumpStart] using Rep.r0 s0 s1 p (pre ++ [s2])⟩
+
+theorem Rep.replaceLast {b : PointBuffer β} {l : List β} (h : Rep b l) (p : β) :
+    (l = [] → b.replaceLast p = none) ∧
+    (l ≠ [] → ∃ b', b.replaceLast p = some b' ∧ Rep b' (l.dropLast ++ [p])) := by
+  cases h with
+  | c0 s0 s1 s2 => exact ⟨fun _ => rfl, fun h => absurd rfl h⟩
+  | c1 s0 s1 s2 => exact ⟨fun h => by simp at h, fun _ => ⟨_, rfl, Rep.c1 p s1 s2⟩⟩
+  | c2 s0 s1 s2 => exact ⟨fun h => by simp at h, fun _ => ⟨_, rfl, Rep.c2 s0 p s2⟩⟩
+  | r0 s0 s1 s2 pre =>
+    refine ⟨fun h => by simp at h, fun _ => ⟨_, rfl, ?_⟩⟩
+    have : (pre ++ [s0, s1, s2]).dropLast ++ [p] = pre ++ [s0, s1, p] := by
+      simp [List.dropLast_append_of_ne_nil]
+    rw [this]; exact Rep.r0 s0 s1 p pre
+  | r1 s0 s1 s2 pre =>
+    refine ⟨fun h => by simp at h, fun _ => ⟨_, rfl, ?_⟩⟩
+    have : (pre ++ [s1, s2, s0]).dropLast ++ [p] = pre ++ [s1, s2, p] := by
+      simp [List.dropLast_append_of_ne_nil]
+    rw [this]; exact Rep.r1 p s1 s2 pre
+  | r2 s0 s1 s2 pre =>
+    refine ⟨fun h => by simp at h, fun _ => ⟨_, rfl, ?_⟩⟩
+    have : (pre ++ [s2, s0, s1]).dropLast ++ [p] = pre ++ [s2, s0, p] := by
+      simp [List.dropLast_append_of_ne_nil]
+    rw [this]; exact Rep.r2 s0 p s2 pre
+
+theorem Rep.clear {b : PointBuffer β} {l : List β} (h : Rep b l) : Rep b.clear [] := by
+  cases h <;> exact Rep.c0 _ _ _
+
+theorem window_append3 (pre : List β) (a b c : β) : window (pre ++ [a, b, c]) = [a, b, c] := by
+  unfold window
+  have : (pre ++ [a, b, c]).length - 3 = pre.length := by simp
+  rw [this]; simp
+
+/-- what can be observed through `count`, `get`, `last`, `last_two_mut` -/
+theorem Rep.observe {b : PointBuffer β} {l : List β} (h : Rep b l) :
+    b.count = min 3 l.length ∧ b.count = (window l).length
+    ∧ (∀ i, i < b.count → b.get i = (window l)[i]?)
+    ∧ b.last = l.getLast?
+    ∧ (2 ≤ b.count → ∃ x y, b.lastTwo = some (x, y) ∧ b.get (b.count - 2) = some x ∧ b.last = some y) := by
+  cases h with
+  | c0 s0 s1 s2 => simp [window, PointBuffer.last]
+  | c1 s0 s1 s2 =>
+    refine ⟨by simp, by simp [window], ?_, by simp [PointBuffer.last, PointBuffer.get, PointBuffer.slot], by simp⟩
+    intro i hi; interval_cases i; simp [window, PointBuffer.get, PointBuffer.slot]
+  | c2 s0 s1 s2 =>
+    refine ⟨by simp, by simp [window], ?_, by simp [PointBuffer.last, PointBuffer.get, PointBuffer.slot], ?_⟩
+    · intro i hi; interval_cases i <;> simp [window, PointBuffer.get, PointBuffer.slot]
+    · intro _; exact ⟨s0, s1, by simp [PointBuffer.lastTwo, PointBuffer.slot, PointBuffer.get, PointBuffer.last]⟩
+  | r0 s0 s1 s2 pre =>
+    refine ⟨by simp, by simp [window_append3], ?_, by simp [PointBuffer.last, PointBuffer.get, PointBuffer.slot], ?_⟩
+    · intro i hi; rw [window_append3]; interval_cases i <;> simp [PointBuffer.get, PointBuffer.slot]
+    · intro _; exact ⟨s1, s2, by simp [PointBuffer.lastTwo, PointBuffer.slot, PointBuffer.get, PointBuffer.last]⟩
+  | r1 s0 s1 s2 pre =>
+    refine ⟨by simp, by simp [window_append3], ?_, by simp [PointBuffer.last, PointBuffer.get, PointBuffer.slot], ?_⟩
+    · intro i hi; rw [window_append3]; interval_cases i <;> simp [PointBuffer.get, PointBuffer.slot]
+    · intro _; exact ⟨s2, s0, by simp [PointBuffer.lastTwo, PointBuffer.slot, PointBuffer.get, PointBuffer.last]⟩
+  | r2 s0 s1 s2 pre =>
+    refine ⟨by simp, by simp [window_append3], ?_, by simp [PointBuffer.last, PointBuffer.get, PointBuffer.slot], ?_⟩
+    · intro i hi; rw [window_append3]; interval_cases i <;> simp [PointBuffer.get, PointBuffer.slot]
+    · intro _; exact ⟨s0, s1, by simp [PointBuffer.lastTwo, PointBuffer.slot, PointBuffer.get, PointBuffer.last]⟩
+
+theorem Rep.run {b : PointBuffer β} {l : List β} (h : Rep b l) (ops : List (BufOp β)) :
+    match specRun l ops with
+    | none => b.run ops = none
+    | some l' => ∃ b', b.run ops = some b' ∧ Rep b' l' := by
+  induction ops generalizing b l with
+  | nil => exact ⟨b, rfl, h⟩
+  | cons op ops ih =>
+    cases op with
+    | push p =>
+      obtain ⟨b', hb, hr⟩ := h.push p
+      have := ih hr
+      simpa [specRun, specApply, PointBuffer.run, PointBuffer.apply, hb] using this
+    | replaceLast p =>
+      by_cases hl : l = []
+      · have := (h.replaceLast p).1 hl
+        simp [specRun, specApply, PointBuffer.run, PointBuffer.apply, hl, this]
+      · obtain ⟨b', hb, hr⟩ := (h.replaceLast p).2 hl
+        have := ih hr
+        simpa [specRun, specApply, PointBuffer.run, PointBuffer.apply, hb, hl] using this
+    | clear =>
+      have := ih h.clear
+      simpa [specRun, specApply, PointBuffer.run, PointBuffer.apply] using this
+
+/-- `point_buffer_refines`: for EVERY sequence of `push` / `replace_last` / `clear` from a new
+buffer, the 3-slot ring behaves as the list of points since the last clear seen through a window
+of three: it panics exactly when the specification has no answer (`replace_last` on an empty
+buffer: the `idx - 1` underflow), and otherwise `count = min 3 (number of points)`, `get i` is the
+`i`-th of the three newest points (never an out-of-range slot, never a stale one), `last` is the
+newest point, `last_two_mut` the two newest. -/
+theorem point_buffer_refines (d : β) (ops : List (BufOp β)) :
+    match specRun [] ops with
+    | none => (PointBuffer.new d).run ops = none
+    | some l => ∃ b, (PointBuffer.new d).run ops = some b
+        ∧ b.count = min 3 l.length
+        ∧ (∀ i, i < b.count → b.get i = (window l)[i]?)
+        ∧ b.last = l.getLast?
+        ∧ (2 ≤ b.count → ∃ x y, b.lastTwo = some (x, y) ∧ b.get (b.count - 2) = some x ∧ b.last = some y) := by
+  have h := (Rep.c0 d d d).run ops
+  cases hs : specRun ([] : List β) ops with
+  | none => rw [hs] at h; exact h
+  | some l =>
+    rw [hs] at h
+    obtain ⟨b, hb, hr⟩ := h
+    obtain ⟨h1, _, h3, h4, h5⟩ := hr.observe
+    exact ⟨b, hb, h1, h3, h4, h5⟩
+
+/-- a concrete run: five pushes, a replace and a wrap-around -/
+example : ((PointBuffer.new 0).run [.push 1, .push 2, .push 3, .push 4, .replaceLast 9, .push 5]).map
+    (fun b => (b.count, b.get 0, b.get 1, b.get 2, b.get 3)) = some (3, some 3, some 9, some 5, none) := by
+  decide
+/-- `replace_last` on an empty buffer is the one panicking sequence -/
+example : (PointBuffer.new 0).run [.push 1, .clear, .replaceLast 2] = none := by decide
+
+end Buffer
+
+/-! ## §5 The merge rule keeps consecutive window points apart -/
+
+section Merge
+variable {K : Type} [Field K] [LinearOrder K] [IsStrictOrderedRing K]
+
+/-- feed a list of points (none of them a flattening step) through the step functions' window logic -/
+noncomputable def feed (thr : K) (w : Window K) : List (P K) → Option (Window K)
+  | [] => some w
+  | p :: ps => match w.step thr p with
+    | none => none
+    | some w' => feed thr w' ps
+
+/-- consecutive entries are at least `thr` apart (squared distance) -/
+def Apart (thr : K) (l : List (P K)) : Prop :=
+  ∀ i p q, l[i]? = some p → l[i + 1]? = some q → thr ≤ (p - q).sqLen
+
+theorem Apart.snoc {thr : K} {l : List (P K)} (h : Apart thr l) (p : P K)
+    (hl : ∀ x, l.getLast? = some x → thr ≤ (x - p).sqLen) : Apart thr (l ++ [p]) := by
+  intro i a b ha hb
+  by_cases h1 : i + 1 < l.length
+  · rw [List.getElem?_append_left (by omega)] at ha
+    rw [List.getElem?_append_left h1] at hb
+    exact h i a b ha hb
+  · by_cases h2 : i + 1 = l.length
+    · rw [List.getElem?_append_left (by omega)] at ha
+      rw [List.getElem?_append_right (by omega)] at hb
+      have hb' : b = p := by
+        have : i + 1 - l.length = 0 := by omega
+        rw [this] at hb; simpa using hb.symm
+      subst hb'
+      apply hl
+      rw [List.getLast?_eq_getElem?]
+      have : l.length - 1 = i := by omega
+      rw [this]; exact ha
+    · have : (l ++ [p])[i + 1]? = none := by
+        rw [List.getElem?_eq_none_iff]; simp; omega
+      rw [this] at hb; cases hb
+
+theorem step_inv {thr : K} {w : Window K} {l : List (P K)} (hr : Rep w.buf l) (ha : Apart thr l) (p : P K) :
+    ∃ w' l', w.step thr p = some w' ∧ Rep w'.buf l' ∧ Apart thr l' := by
+  unfold Window.step
+  by_cases hm : w.merges thr p = true
+  · rw [if_pos hm]; exact ⟨_, l, rfl, hr, ha⟩
+  · rw [if_neg hm]
+    obtain ⟨b', hb, hr'⟩ := hr.push p
+    refine ⟨{ w with buf := b' }, l ++ [p], by simp [hb], hr', ?_⟩
+    apply ha.snoc
+    intro x hx
+    have hlast : w.buf.last = some x := by rw [hr.observe.2.2.2.1]; exact hx
+    simp only [Window.merges, hlast, pointsAreTooClose, Bool.not_eq_true, decide_eq_false_iff_not] at hm
+    exact not_lt.mp hm
+
+theorem feed_inv (thr : K) (ps : List (P K)) : ∀ (w : Window K) (l : List (P K)), Rep w.buf l → Apart thr l →
+    ∃ w' l', feed thr w ps = some w' ∧ Rep w'.buf l' ∧ Apart thr l' := by
+  induction ps with
+  | nil => intro w l hr ha; exact ⟨w, l, rfl, hr, ha⟩
+  | cons p ps ih =>
+    intro w l hr ha
+    obtain ⟨w1, l1, hs, hr1, ha1⟩ := step_inv hr ha p
+    obtain ⟨w2, l2, hf, hr2, ha2⟩ := ih w1 l1 hr1 ha1
+    exact ⟨w2, l2, by simp [feed, hs, hf], hr2, ha2⟩
+
+/-- `kept_points_apart`: whatever points are fed through the merge rule of `step_impl` /
+`fixed_width_step_impl` after a `clear`, the window never panics and any two consecutive points
+it holds are at least the merge threshold apart (squared distance ≥ `square_merge_threshold`). -/
+theorem kept_points_apart (thr : K) (ps : List (P K)) :
+    ∃ w, feed thr Window.new ps = some w ∧
+      ∀ i, i + 1 < w.buf.count → ∃ p q, w.buf.get i = some p ∧ w.buf.get (i + 1) = some q
+        ∧ thr ≤ (p - q).sqLen := by
+  obtain ⟨w, l, hf, hr, ha⟩ := feed_inv thr ps Window.new [] (Rep.c0 _ _ _) (by intro i p q h; simp at h)
+  refine ⟨w, hf, ?_⟩
+  intro i hi
+  obtain ⟨_, hc, hg, _, _⟩ := hr.observe
+  have h1 : i < (window l).length := by omega
+  have h2 : i + 1 < (window l).length := by omega
+  refine ⟨(window l)[i], (window l)[i + 1], ?_, ?_, ?_⟩
+  · rw [hg i (by omega)]; exact List.getElem?_eq_getElem h1
+  · rw [hg (i + 1) hi]; exact List.getElem?_eq_getElem h2
+  · apply ha (l.length - 3 + i)
+    · simp [window]
+    · simp [window, Nat.add_assoc]
+
+/-- the merge threshold is positive whatever the options are (`.max(1e-8)`) … -/
+theorem merge_threshold_pos (tolerance lineWidth : K) : 0 < squareMergeThreshold tolerance lineWidth := by
+  unfold squareMergeThreshold
+  simp only [geom]
+  apply lt_of_lt_of_le _ (le_max_right _ _)
+  positivity
+
+/-- … so kept consecutive points are distinct and the edge lengths used as divisors are non-zero -/
+theorem apart_ne {thr : K} (hthr : 0 < thr) {p q : P K} (h : thr ≤ (p - q).sqLen) :
+    p ≠ q ∧ 0 < (q - p).sqLen := by
+  constructor
+  · rintro rfl
+    have : ((p - p : P K)).sqLen = 0 := by simp only [geom]; ring
+    rw [this] at h; exact absurd (lt_of_lt_of_le hthr h) (lt_irrefl _)
+  · have : (q - p).sqLen = (p - q).sqLen := by simp only [geom]; ring
+    rw [this]; exact lt_of_lt_of_le hthr h
+
+end Merge
+
+/-! ## §6 `compute_normal` and the miter limit -/
+
+section Normal
+variable {K : Type} [Field K] [LinearOrder K] [IsStrictOrderedRing K] [Transc K]
+
+theorem normalEpsilon_eq : (normalEpsilon : K) = 1 / 10000 := by
+  simp only [normalEpsilon, geom]; norm_num
+
+/-- `compute_normal_miter`.  For unit tangents `v1`, `v2` that are not (nearly) opposite — the first
+guard `|v1+v2|² < 1e-4` is not taken — the second guard is never taken either, and the result `n`
+satisfies `n·n₁ = n·n₂ = 1` (extruding by `n` keeps both offset lines at distance 1) and
+`|n|²·(1 + v1·v2) = 2`, i.e. `|n|² = 2/(1+v1·v2)`.  Finiteness (no division by zero) and the
+miter-limit test are therefore algebraic facts.  `sqrt` enters only through `s ≥ 0`, `s·s = x`. -/
+theorem compute_normal_miter (v1 v2 : P K) (h1 : v1.sqLen = 1) (h2 : v2.sqLen = 1)
+    (hg : ¬ (v1 + v2).sqLen < normalEpsilon)
+    (hs0 : 0 ≤ Transc.sqrt (v1 + v2).sqLen)
+    (hs : Transc.sqrt (v1 + v2).sqLen * Transc.sqrt (v1 + v2).sqLen = (v1 + v2).sqLen) :
+    (computeNormal v1 v2).dot (perp v1) = 1 ∧ (computeNormal v1 v2).dot (perp v2) = 1
+      ∧ (computeNormal v1 v2).sqLen * (1 + v1.dot v2) = 2 := by
+  obtain ⟨a, b⟩ := v1
+  obtain ⟨c, d⟩ := v2
+  simp only [geom] at h1 h2
+  have hsum : (P.mk a b + P.mk c d : P K) = ⟨a + c, b + d⟩ := rfl
+  rw [hsum] at hg hs0 hs
+  set s := Transc.sqrt (P.mk (a + c) (b + d)).sqLen with hsdef
+  have hS : s * s = (a + c) * (a + c) + (b + d) * (b + d) := by rw [hs]; simp only [geom]
+  have hge : (1 : K) / 10000 ≤ s * s := by
+    rw [hS]; have := not_lt.mp hg; rw [normalEpsilon_eq] at this; simpa only [geom] using this
+  have hspos : 0 < s := by
+    rcases eq_or_lt_of_le hs0 with h | h
+    · rw [← h] at hge; norm_num at hge
+    · exact h
+  have hsne : s ≠ 0 := ne_of_gt hspos
+  -- s ≥ 1/100
+  have hs100 : (1 : K) / 100 ≤ s := by
+    by_contra hlt
+    have hlt' := not_le.mp hlt
+    have : s * s < (1 / 100) * (1 / 100) := by nlinarith
+    norm_num at this; linarith
+  -- the inverse length is s/2
+  have hinv : (-((b + d) / s)) * (-b) + ((a + c) / s) * a = s / 2 := by
+    field_simp
+    linear_combination (h1 - h2) - hS
+  have hdot : (perp (Stroke.normalize (P.mk (a + c) (b + d)))).dot (perp (P.mk a b)) = s / 2 := by
+    simp only [Stroke.normalize, perp, P.sdiv, P.dot, ← hsdef]
+    exact hinv
+  have hne : ¬ Scalar.abs ((perp (Stroke.normalize (P.mk (a + c) (b + d)))).dot (perp (P.mk a b))) < normalEpsilon := by
+    rw [normalEpsilon_eq, hdot]
+    show ¬ |s / 2| < 1 / 10000
+    rw [abs_of_pos (by positivity)]
+    intro h; linarith
+  have hcn : computeNormal (P.mk a b) (P.mk c d)
+      = ⟨(-((b + d) / s)) / (s / 2), ((a + c) / s) / (s / 2)⟩ := by
+    unfold computeNormal
+    simp only [hsum]
+    rw [if_neg hg]
+    unfold computeNormalTail
+    simp only []
+    rw [if_neg hne, hdot]
+    simp only [Stroke.normalize, perp, P.sdiv, ← hsdef]
+  rw [hcn]
+  simp only [perp, P.dot, P.sqLen]
+  refine ⟨?_, ?_, ?_⟩
+  · field_simp; linear_combination (h1 - h2) - hS
+  · field_simp; linear_combination (h2 - h1) - hS
+  · have h4 : s * s * (s * s) ≠ 0 := by positivity
+    field_simp
+    linear_combination (-((a + c) * (a + c) + (b + d) * (b + d) + s * s)) * hS - ((a + c) * (a + c) + (b + d) * (b + d)) * h1 - ((a + c) * (a + c) + (b + d) * (b + d)) * h2
+
+/-- (nearly) opposite tangents: the first guard answers the zero vector — no division happens -/
+theorem compute_normal_opposite (v1 v2 : P K) (hg : (v1 + v2).sqLen < normalEpsilon) :
+    computeNormal v1 v2 = ⟨0, 0⟩ := by
+  unfold computeNormal
+  simp only []
+  rw [if_pos hg]
+  simp only [geom, Nat.cast_zero]
+
+/-- `miter_limit_iff`: the test is `|normal|² > (2·limit)²` … -/
+theorem miter_limit_iff (n : P K) (l : K) :
+    miterLimitIsExceeded n l = true ↔ (2 * l) ^ 2 < n.sqLen := by
+  unfold miterLimitIsExceeded
+  simp only [decide_eq_true_eq, geom, gt_iff_lt]
+  constructor <;> intro h <;> [skip; skip] <;> (norm_num at h ⊢; nlinarith)
+
+/-- … i.e. `|normal| > 2·limit` for a non-negative limit (`L` is the length of the normal) -/
+theorem miter_limit_iff_length (n : P K) (l L : K) (hl : 0 ≤ l) (hL : 0 ≤ L) (hLL : L * L = n.sqLen) :
+    miterLimitIsExceeded n l = true ↔ 2 * l < L := by
+  rw [miter_limit_iff, ← hLL]
+  constructor
+  · intro h
+    by_contra hc
+    have hc' := not_lt.mp hc
+    nlinarith
+  · intro h
+    nlinarith
+
+/-- for the normal of two unit tangents the test reads `2·limit²·(1 + v1·v2) < 1` -/
+theorem miter_limit_tangents (v1 v2 : P K) (l : K) (h1 : v1.sqLen = 1) (h2 : v2.sqLen = 1)
+    (hg : ¬ (v1 + v2).sqLen < normalEpsilon)
+    (hs0 : 0 ≤ Transc.sqrt (v1 + v2).sqLen)
+    (hs : Transc.sqrt (v1 + v2).sqLen * Transc.sqrt (v1 + v2).sqLen = (v1 + v2).sqLen) :
+    miterLimitIsExceeded (computeNormal v1 v2) l = true ↔ 2 * l ^ 2 * (1 + v1.dot v2) < 1 := by
+  obtain ⟨_, _, h⟩ := compute_normal_miter v1 v2 h1 h2 hg hs0 hs
+  rw [miter_limit_iff]
+  have hc : 0 < 1 + v1.dot v2 := by
+    have hS : (v1 + v2).sqLen = 2 * (1 + v1.dot v2) := by
+      simp only [geom] at h1 h2 ⊢
+      linear_combination h1 + h2
+    have : 0 < (v1 + v2).sqLen := by
+      have := not_lt.mp hg
+      rw [normalEpsilon_eq] at this
+      have h0 : (0 : K) < 1 / 10000 := by norm_num
+      exact lt_of_lt_of_le h0 this
+    rw [hS] at this; linarith
+  set c := 1 + v1.dot v2 with hcdef
+  set N := (computeNormal v1 v2).sqLen with hN
+  constructor
+  · intro hlt
+    have : (2 * l) ^ 2 * c < N * c := mul_lt_mul_of_pos_right hlt hc
+    rw [h] at this; nlinarith
+  · intro hlt
+    by_contra hge
+    have hge' := not_lt.mp hge
+    have : N * c ≤ (2 * l) ^ 2 * c := mul_le_mul_of_nonneg_right hge' hc.le
+    rw [h] at this; nlinarith
+
+end Normal
+
+/-! ## §7 The hypotheses are satisfiable: instances over ℝ -/
+
+section real
+
+/-- `Transc ℝ` with the real `sqrt`, `sin`, `cos` (the other fields are not used by the theorems) -/
+@[instance_reducible] noncomputable def realTransc : Transc ℝ where
+  sqrt := Real.sqrt
+  cbrt := fun x => x
+  sin := Real.sin
+  cos := Real.cos
+  tan := fun x => x
+  acos := fun x => x
+  atan2 := fun _ x => x
+  pow := fun x _ => x
+  log2 := fun x => x
+  ln := fun x => x
+  floor := fun x => x
+  ceil := fun x => x
+  toNat := fun _ => 0
+  fmod := fun x _ => x
+  eps := 0
+  pi := Real.pi
+  isNaN := fun _ => false
+  isFinite := fun _ => true
+
+/-- `arc_fan`'s law holds for the real functions, so e.g. every depth-5 arc is a fan of 31 -/
+example (a0 a1 : ℝ) (d : VData ℝ) (o : Out ℝ) (h : 2 ≤ o.nextId) :
+    (@tessellateArc ℝ _ realTransc a0 a1 0 1 5 d o).nextId = o.nextId + 31 := by
+  let _ := realTransc
+  have := (arc_fan (K := ℝ) (fun x => by
+    show Real.cos x * Real.cos x + Real.sin x * Real.sin x = 1
+    have := Real.cos_sq_add_sin_sq x; nlinarith) 5 a0 a1 0 1 d o (by decide) (by omega) (by omega)).next
+  simpa using this
+
+/-- `compute_normal_miter` at a right-angle turn: hypotheses hold, `|n|² = 2` -/
+example : (@computeNormal ℝ _ realTransc ⟨1, 0⟩ ⟨0, 1⟩).sqLen * (1 + (P.mk (1 : ℝ) 0).dot ⟨0, 1⟩) = 2 := by
+  let _ := realTransc
+  refine (compute_normal_miter (K := ℝ) ⟨1, 0⟩ ⟨0, 1⟩ (by simp [geom]) (by simp [geom]) ?_ ?_ ?_).2.2
+  · rw [normalEpsilon_eq]; simp only [geom]; norm_num
+  · exact Real.sqrt_nonneg _
+  · exact Real.mul_self_sqrt (by simp only [geom]; norm_num)
+
+end real
+
 end Lyon.C05
